@@ -231,7 +231,7 @@ theorem genNode_ctl (ev : Evalr ρ) (f : Nat) (st s2 : St ρ) (e : Elem) (ks : N
   have hd' : ¬ (st.depth + 1 > st.cfg.depthLimit) := by omega
   have hd2 : dispatch ev f { st with depth := st.depth + 1 } e (some ks) = (up s2, .ok (evs, bb)) := hd
   rw [registerEarly_ctl ev st e ks hid]
-  simp only [ctlNode, genNode, genElem, if_neg hd', hd2, clipPost_none ev e _ hclip, seq, withTail, down_up]
+  simp only [ctlNode, genNode, leafDefaults, genElem, if_neg hd', hd2, clipPost_none ev e _ hclip, seq, withTail, down_up]
 
 theorem repl_of_dispatch {ev : Evalr ρ} {s1 S2 : St ρ} {e : Elem} {ks : Nodes} {ms : List Node} {evs : List Ev}
     {bb : Option BoundingBox} {f : Nat} (hok : Ok s1) (hid : e.getAttr cs!"id" = none)
@@ -349,6 +349,14 @@ def ForHdrOk (st : St ρ) (iv : Option Str) (item : Str) (idx : Nat) : Prop :=
   st.depth + 1 ≤ st.cfg.depthLimit ∧ (String.ofList item).utf8ByteSize ≤ st.cfg.varLimit ∧
   (iv.isSome = true → (String.ofList (Str.natToStr idx)).utf8ByteSize ≤ st.cfg.varLimit)
 
+/-- … and no default in force applies to it: `apply_defaults` treats `<var …/>` like any other empty-element tag, so a
+    default for `_` or `var` would add its attributes - more variables than the `<for>` binds -/
+def ForVarUntouched (st : St ρ) (v : Str) (iv : Option Str) (item : Str) (idx : Nat) : Prop :=
+  applyDefaults st (forVarElem v iv item idx) = forVarElem v iv item idx
+
+instance (st : St ρ) (v : Str) (iv : Option Str) (item : Str) (idx : Nat) : Decidable (ForVarUntouched st v iv item idx) := by
+  unfold ForVarUntouched; infer_instance
+
 /-- the run of a `<for>` over `items` from index `idx` in which every element of every copy succeeds at its first attempt
     and the loop limit is not hit -/
 inductive ForRun (ev : Evalr ρ) (v : Str) (iv : Option Str) (ks : Nodes) :
@@ -356,7 +364,8 @@ inductive ForRun (ev : Evalr ρ) (v : Str) (iv : Option Str) (ks : Nodes) :
   | done (st : St ρ) (idx : Nat) : ForRun ev v iv ks [] st idx st [] none
   | pass {item : Str} {items : List Str} {st : St ρ} {idx : Nat} {s1 : St ρ} {evs : List Ev} {b : Option BoundingBox}
       {s2 : St ρ} {evs' : List Ev} {bb : Option BoundingBox} :
-      ForHdrOk st iv item idx → FT ev (bindForVars st v iv item idx) ks.toList s1 evs b →
+      ForHdrOk st iv item idx → ForVarUntouched st v iv item idx →
+      FT ev (bindForVars st v iv item idx) ks.toList s1 evs b →
       idx + 1 ≤ s1.cfg.loopLimit → ForRun ev v iv ks items s1 (idx + 1) s2 evs' bb →
       ForRun ev v iv ks (item :: items) st idx s2 (evs ++ evs') (unionOpt b bb)
 
@@ -390,14 +399,15 @@ theorem dispatch_var (ev : Evalr ρ) (f : Nat) (st : St ρ) (e : Elem) (kids : O
 
 /-- a `<var>` element as a node: depth accounting around `genVar` -/
 theorem genNode_var (ev : Evalr ρ) (g : Nat) (st s2 : St ρ) (e : Elem) (hname : e.name = cs!"var")
-    (hdepth : st.depth + 1 ≤ st.cfg.depthLimit) (hv : genVar ev st e = (s2, .ok ([], none))) :
+    (hdepth : st.depth + 1 ≤ st.cfg.depthLimit) (hdef : applyDefaults st e = e)
+    (hv : genVar ev st e = (s2, .ok ([], none))) :
     genNode ev (g + 3) st (.elem e none none) = (s2, .ok ([], none)) := by
   have hd' : ¬ (st.depth + 1 > st.cfg.depthLimit) := by omega
   have hd2 : dispatch ev (g + 1) { st with depth := st.depth + 1 } e none = (up s2, .ok ([], none)) := by
     rw [dispatch_var ev g _ e none hname]
     show genVar ev (up st) e = _
     rw [up_genVar, hv]; rfl
-  simp only [genNode, genElem, if_neg hd', hd2, clipPost, seq, withTail, down_up]
+  simp only [genNode, leafDefaults, hdef, genElem, if_neg hd', hd2, clipPost, seq, withTail, down_up]
 
 theorem registerEarly_forVarNode (ev : Evalr ρ) (st : St ρ) (v : Str) (iv : Option Str) (item : Str) (idx : Nat)
     (hv : LegalVar v) (hi : ∀ i, iv = some i → LegalVar i) :
@@ -421,7 +431,7 @@ theorem forIter_of_run {ev : Evalr ρ} {v : Str} {iv : Option Str} {ks : Nodes} 
     cases f with
     | zero => simp [forIter, NF] at hnf
     | succ f => rw [C16.for_done]; simp [unionOpt_none_right]
-  | @pass item items st idx s1 evs b s2 evs' bb hh hft hlim _ ih =>
+  | @pass item items st idx s1 evs b s2 evs' bb hh hdf hft hlim _ ih =>
     intro f acc bb0 hok hnf
     cases f with
     | zero => simp [forIter, NF] at hnf
@@ -445,12 +455,12 @@ theorem FT_unrollFor_of_run {ev : Evalr ρ} {v : Str} {iv : Option Str} {ks : No
     FT ev st (unrollFor v iv items idx ks).toList s2 evs bb := by
   induction hp with
   | done st idx => intro _ _; exact (FT.nil st).cast (by simp [unrollFor, toList_ofList]) rfl rfl
-  | @pass item items st idx s1 evs b s2 evs' bb hh hft hlim _ ih =>
+  | @pass item items st idx s1 evs b s2 evs' bb hh hdf hft hlim _ ih =>
     intro hlit hidx
     have hvar : genNode ev (0 + 3) (registerEarly ev st (forVarNode v iv item idx)) (forVarNode v iv item idx)
         = (bindForVars st v iv item idx, .ok ([], none)) := by
       rw [registerEarly_forVarNode ev st v iv item idx hv hi]
-      exact genNode_var ev 0 st _ _ rfl hh.1
+      exact genNode_var ev 0 st _ _ rfl hh.1 hdf
         (genVar_forVar ev st v iv item idx hv hi (hlit item (by simp))
           (fun h => hidx h idx (Nat.le_refl _) (by simp)) hh.2.1 hh.2.2)
     have h := FT.cons hvar (FT_append hft (ih (fun a ha => hlit a (by simp [ha]))
@@ -468,7 +478,7 @@ theorem forIter_NF_of_run {ev : Evalr ρ} {v : Str} {iv : Option Str} {ks : Node
     refine ⟨1, fun f hf acc bb0 => ?_⟩
     obtain ⟨f, rfl⟩ : ∃ f', f = f' + 1 := ⟨f - 1, by omega⟩
     rw [C16.for_done]; simp [NF]
-  | @pass item items st idx s1 evs b s2 evs' bb hh hft hlim _ ih =>
+  | @pass item items st idx s1 evs b s2 evs' bb hh hdf hft hlim _ ih =>
     intro hok
     have hokb : Ok (bindForVars st v iv item idx) := ok_bindForVars st v iv item idx hok
     have hok1 : Ok s1 := FT_ok hft hokb
@@ -586,7 +596,8 @@ theorem unrollG_eq_unroll (name : Str) (vals : List Rat) (ks : Nodes) (h : name 
 /-- what the `<var>` of one unrolled pass needs and the loop does not: room for one more nesting level, the rendered
     value within `var-limit` -/
 def HdrOk (st : St ρ) (name : Str) (v : Rat) : Prop :=
-  name = [] ∨ (st.depth + 1 ≤ st.cfg.depthLimit ∧ (String.ofList (loopVarStr v)).utf8ByteSize ≤ st.cfg.varLimit)
+  name = [] ∨ (st.depth + 1 ≤ st.cfg.depthLimit ∧ (String.ofList (loopVarStr v)).utf8ByteSize ≤ st.cfg.varLimit ∧
+    VarUntouched st name v)
 
 /-- THE TRACE HYPOTHESIS: a run of `n` passes of a loop (pass number `it`, value `v`, state `st` at its start) in which
     * the test before each of the `n` passes says "go" and — unless the run ends by the test after the `n`-th pass — the
@@ -624,7 +635,7 @@ theorem FT_hdr (ev : Evalr ρ) (st : St ρ) (name : Str) (v : Rat) (hname : Lega
     have hvar : genNode ev (0 + 3) (registerEarly ev st (varNode name v)) (varNode name v)
         = (bindLoopVar st name v, .ok ([], none)) := by
       rw [registerEarly_varNode ev st name v hl.2.2]
-      exact genNode_varNode ev 0 st name v ⟨hn, hl.1, hl.2.1, hl.2.2⟩ hh'.1 hh'.2 hlit'
+      exact genNode_varNode ev 0 st name v ⟨hn, hl.1, hl.2.1, hl.2.2⟩ hh'.1 hh'.2.1 hh'.2.2 hlit'
     exact (FT_single hvar).cast (by simp [hdr, he]) rfl rfl
 
 /-- LOOP SIDE -/
@@ -804,10 +815,10 @@ theorem loopRun_of_passes {ev : Evalr ρ} {name : Str} {step : Rat} {ks : Nodes}
     LoopRun ev (some (it + n)) none none name step ks n st v it s2 evs bb := by
   induction hp with
   | done st v it => exact LoopRun.count_stop (by omega)
-  | @pass n st v it s1 evs b s2 evs' bb hd hv hft hlim _ ih =>
+  | @pass n st v it s1 evs b s2 evs' bb hd hv hdf hft hlim _ ih =>
     have hidx : it + (n + 1) = it + 1 + n := by omega
     rw [hidx]
-    exact LoopRun.pass (by simp [preTest]; omega) (Or.inr ⟨hd, hv⟩) hft hlim rfl ih
+    exact LoopRun.pass (by simp [preTest]; omega) (Or.inr ⟨hd, hv, hdf⟩) hft hlim rfl ih
 
 /-! ### the `<loop>` element -/
 
@@ -1212,7 +1223,7 @@ def forRunB (ev : Evalr ρ) (v : Str) (iv : Option Str) (ks : Nodes) (g : Nat) :
     List Str → St ρ → Nat → Option (St ρ × List Ev × Option BoundingBox)
   | [], st, _ => some (st, [], none)
   | item :: items, st, idx =>
-    if ForHdrOk st iv item idx then
+    if ForHdrOk st iv item idx ∧ ForVarUntouched st v iv item idx then
       match ftB ev g (bindForVars st v iv item idx) ks with
       | none => none
       | some (s1, evs, b) =>
@@ -1250,7 +1261,7 @@ theorem forRun_of_B (ev : Evalr ρ) (v : Str) (iv : Option Str) (ks : Nodes) (g 
           · rename_i s2' evs' bb' hrec
             simp only [Option.some.injEq, Prod.mk.injEq] at h
             obtain ⟨rfl, rfl, rfl⟩ := h
-            exact ForRun.pass hh hft' hlim (ih _ _ _ _ _ (FT_ok hft' hokb) hrec)
+            exact ForRun.pass hh.1 hh.2 hft' hlim (ih _ _ _ _ _ (FT_ok hft' hokb) hrec)
         · cases h
     · cases h
 
@@ -1695,6 +1706,21 @@ theorem id_on_loop_is_registered :
     (processNodes simpleEvalr 24 st0 (unrollG ['i'] (loopVals 0 1 1) body)).1.originals.length = 0 ∧
     (processNodes simpleEvalr 24 st0 (Nodes.ofList [ctlNode loopX body])).2
       = (processNodes simpleEvalr 24 st0 (unrollG ['i'] (loopVals 0 1 1) body)).2 := by
+  decide +kernel
+
+/-- (F7) ELEMENT DEFAULTS APPLY TO THE `<var/>` OF THE UNROLLING: `apply_defaults` is run on every empty-element tag,
+    svgdx's own elements included. With the default `<_ extra="1"/>` in force the unrolled `<var i="0"/>` becomes
+    `<var i="0" extra="1"/>` and binds `extra` too; the loop binds its variable directly. Same events, different final
+    states - hence `VarUntouched` in `FirstTryLoop` / `HdrOk` and `ForVarUntouched` in `ForRun`. -/
+theorem defaults_reach_the_unrolled_var :
+    let d : ElementMatch × Elem := defaultEntry (Elem.new ['_'] [(cs!"extra", ['1'])])
+    let st : St Nat := { rng := 0, scopes := [{ defaults := [d] }] }
+    let loop1 : Elem := { name := cs!"loop", attrs := [(cs!"count", ['1']), (cs!"loop-var", ['i'])] }
+    ¬ VarUntouched st ['i'] 0 ∧
+    (processNodes simpleEvalr 24 st (Nodes.ofList [ctlNode loop1 body])).1.lookup cs!"extra" = none ∧
+    (processNodes simpleEvalr 24 st (unrollG ['i'] (loopVals 0 1 1) body)).1.lookup cs!"extra" = some ['1'] ∧
+    (processNodes simpleEvalr 24 st (Nodes.ofList [ctlNode loop1 body])).2
+      = (processNodes simpleEvalr 24 st (unrollG ['i'] (loopVals 0 1 1) body)).2 := by
   decide +kernel
 
 end Findings
